@@ -806,8 +806,32 @@ func orAccepted(s string) string {
 // ---------------------------------------------------------------------------------------------
 // C06
 
+// monQueueOrder: the wait list of a pipeline is in the order of acceptance in every reported state - a replacing
+// job takes the place of the job it replaces (the newest), a cancel closes the gap, nothing else touches the order.
+// This holds across reloads as well (no operation reorders the remaining queue).
+func monQueueOrder(f *Facts, prop, rule, norm, what string) []Violation {
+	var vs []Violation
+	for _, di := range f.Dumps {
+		d := f.Log[di].Dump
+		if d == nil {
+			continue
+		}
+		for p, l := range d.WaitLists {
+			for i := 1; i < len(l); i++ {
+				if l[i] < l[i-1] {
+					vs = append(vs, Violation{Property: prop, Rule: rule, Norm: norm,
+						Msg: fmt.Sprintf("%s: the wait list of pipeline %s is %v at event %d - job %d, accepted later, is ahead of job %d: %s", what, p, l, di, l[i-1], l[i], d.Short())})
+					return vs
+				}
+			}
+		}
+	}
+	return vs
+}
+
 func monC06(f *Facts) []Violation {
 	var vs []Violation
+	vs = append(vs, monQueueOrder(f, "C06", "queue-order", "wait-list-not-in-acceptance-order", "cancels, replacements, failures and restarts of other jobs never reorder the remaining queue")...)
 	// "under an unchanged definition": only jobs accepted after the last reload of the history are compared
 	lastReload := -1
 	for i, e := range f.Log {
@@ -855,6 +879,7 @@ func explicitlyCanceled(f *Facts, j *JobFacts) bool {
 
 func monC07(f *Facts, now time.Duration) []Violation {
 	var vs []Violation
+	vs = append(vs, monQueueOrder(f, "C07", "newest-runs-last", "newer-job-queued-ahead-of-an-older-one", "a burst converges to the newest request (it is queued behind every older one, so the last run belongs to it)")...)
 	latest := f.Final
 	if latest == nil {
 		return nil
